@@ -63,9 +63,25 @@ CLAIMED["C05"] = (
     "DESIGN.md section 5, C05",
 )
 
+CLAIMED["C12"] = (
+    "session",
+    "fault_enumeration",
+    "The whole stack runs real (MainLoop, posix raw Screen, six event loops plus the screen-without-external-loop path, "
+    "widgets, PopUpTarget) on a fake tty/virtual clock with RefTerm as the terminal. Each sampled session is run fault-free, "
+    "the invocations of every callback category are counted, and the session is re-run for every invocation index x "
+    "{ExitMainLoop, ValueError, private exception} (crash-point enumeration; capped per session in the quick tier). Checked: "
+    "filter->widget->unhandled order and raw-byte arrival order, screen equals a fresh render whenever the loop really waits, "
+    "exit/propagation of the injected object, and full restoration (buffer, cursor, mouse/paste/focus modes, SGR, charset, "
+    "termios list, SIGWINCH/SIGTSTP/SIGCONT handlers). Exhaustive over crash points of a sampled session; sessions are sampled.",
+    "Trusts RefTerm as a model of the user's terminal and the fake termios list (real tty.cfmakecbreak applied); the suspend cycle "
+    "(SIGTSTP/SIGCONT) is not simulated; callbacks already dequeued when an exception is raised are unconstrained.",
+    "deterministic simulation: crash-point enumeration (exception at every callback invocation) over seeded full-stack sessions",
+    "DESIGN.md section 5, C12",
+)
+
 PENDING = {
     p: "claimed in DESIGN.md; its simulation engine is not built yet in this tree, so no check is registered for it at this commit"
-    for p in ("C04", "C06", "C07", "C08", "C10", "C12", "C15", "C20")
+    for p in ("C04", "C06", "C07", "C08", "C10", "C15", "C20")
 }
 
 
